@@ -325,6 +325,107 @@ fn cross_check_inner(
             ));
         }
     }
+    // single edge properties, batch property getters, iterators by label, dictionaries
+    for &id in c.edge_ids {
+        for k in KEYS {
+            let g = s.get_edge_property(EdgeId::new(id), &PropertyKey::new(k)).map(|v| SV::from_value(&v));
+            let want = m.edges.get(&id).and_then(|e| e.props.get(k));
+            if g.as_ref() != want {
+                acc.push(("accessor=get_edge_property | kind=mismatch".into(), format!("edge {id}.{k}: {g:?} vs {want:?}")));
+            }
+        }
+        if let Some(me) = m.edges.get(&id) {
+            for (k, v) in &me.props {
+                if !s.edge_property_might_match(&PropertyKey::new(k.as_str()), CompareOp::Eq, &v.to_value()) {
+                    acc.push((format!("accessor=edge_property_might_match(Eq) | kind=false-negative | value={}", v.class()), format!("edge {id}.{k}={v:?} exists")));
+                }
+            }
+        }
+    }
+    {
+        let all: Vec<NodeId> = c.node_ids.iter().map(|i| NodeId::new(*i)).collect();
+        let keys: Vec<PropertyKey> = KEYS.iter().map(|k| PropertyKey::new(*k)).collect();
+        let conv = |mp: &grafeo_common::utils::hash::FxHashMap<PropertyKey, grafeo_common::types::Value>| -> BTreeMap<String, SV> { mp.iter().map(|(k, v)| (k.as_str().to_string(), SV::from_value(v))).collect() };
+        let empty = BTreeMap::new();
+        let full = s.get_nodes_properties_batch(&all);
+        let sel = s.get_nodes_properties_selective_batch(&all, &keys[..1]);
+        if full.len() != all.len() || sel.len() != all.len() {
+            acc.push(("accessor=get_nodes_properties_batch | kind=wrong-length".into(), format!("{} / {} results for {} ids", full.len(), sel.len(), all.len())));
+        } else {
+            for (i, id) in c.node_ids.iter().enumerate() {
+                let want = m.nodes.get(id).map_or(&empty, |n| &n.props);
+                if conv(&full[i]) != *want {
+                    acc.push(("accessor=get_nodes_properties_batch | kind=mismatch".into(), format!("node {id}: {:?} vs {want:?}", conv(&full[i]))));
+                }
+                let want_sel: BTreeMap<String, SV> = want.iter().filter(|(k, _)| k.as_str() == KEYS[0]).map(|(k, v)| (k.clone(), v.clone())).collect();
+                if conv(&sel[i]) != want_sel {
+                    acc.push(("accessor=get_nodes_properties_selective_batch | kind=mismatch".into(), format!("node {id}: {:?} vs {want_sel:?}", conv(&sel[i]))));
+                }
+            }
+        }
+        for k in KEYS {
+            let col = s.get_node_property_batch(&all, &PropertyKey::new(k));
+            if col.len() != all.len() {
+                acc.push(("accessor=get_node_property_batch | kind=wrong-length".into(), format!("{} results for {} ids", col.len(), all.len())));
+                continue;
+            }
+            for (i, id) in c.node_ids.iter().enumerate() {
+                let g = col[i].as_ref().map(SV::from_value);
+                let want = m.nodes.get(id).and_then(|n| n.props.get(k));
+                if g.as_ref() != want {
+                    acc.push(("accessor=get_node_property_batch | kind=mismatch".into(), format!("node {id}.{k}: {g:?} vs {want:?}")));
+                }
+            }
+        }
+        let alle: Vec<EdgeId> = c.edge_ids.iter().map(|i| EdgeId::new(*i)).collect();
+        let esel = s.get_edges_properties_selective_batch(&alle, &keys);
+        if esel.len() != alle.len() {
+            acc.push(("accessor=get_edges_properties_selective_batch | kind=wrong-length".into(), format!("{} results for {} ids", esel.len(), alle.len())));
+        } else {
+            for (i, id) in c.edge_ids.iter().enumerate() {
+                let want = m.edges.get(id).map_or(&empty, |e| &e.props);
+                if conv(&esel[i]) != *want {
+                    acc.push(("accessor=get_edges_properties_selective_batch | kind=mismatch".into(), format!("edge {id}: {:?} vs {want:?}", conv(&esel[i]))));
+                }
+            }
+        }
+    }
+    for l in LABELS {
+        let got: Vec<u64> = sorted(s.nodes_with_label(l).map(|n| n.id.as_u64()).collect());
+        let want = m.label_members(l);
+        if got != want {
+            acc.push(("accessor=nodes_with_label | kind=set-mismatch".into(), format!("{l}: {got:?} vs {want:?}")));
+        }
+    }
+    {
+        // the dictionaries list every name in use (they may keep names no longer in use)
+        let labels: BTreeSet<String> = s.all_labels().into_iter().collect();
+        let types: BTreeSet<String> = s.all_edge_types().into_iter().collect();
+        let pkeys: BTreeSet<String> = s.all_property_keys().into_iter().collect();
+        for n in m.nodes.values() {
+            for l in &n.labels {
+                if !labels.contains(l) {
+                    acc.push(("accessor=all_labels | kind=name-in-use-missing".into(), l.clone()));
+                }
+            }
+            for k in n.props.keys() {
+                if !pkeys.contains(k) {
+                    acc.push(("accessor=all_property_keys | kind=name-in-use-missing".into(), k.clone()));
+                }
+            }
+        }
+        for e in m.edges.values() {
+            if !types.contains(&e.ty) {
+                acc.push(("accessor=all_edge_types | kind=name-in-use-missing".into(), e.ty.clone()));
+            }
+        }
+        if s.label_count() != labels.len() {
+            acc.push(("accessor=label_count | kind=count-mismatch".into(), format!("{} vs {} listed", s.label_count(), labels.len())));
+        }
+        if s.edge_type_count() != types.len() {
+            acc.push(("accessor=edge_type_count | kind=count-mismatch".into(), format!("{} vs {} listed", s.edge_type_count(), types.len())));
+        }
+    }
     // labels
     for l in LABELS {
         let got: Vec<u64> = s.nodes_by_label(l).iter().map(|n| n.as_u64()).collect();
